@@ -12,6 +12,7 @@ import SvgVerif.Model.BBox
 import SvgVerif.Model.Radial
 import SvgVerif.Model.Enclose
 import SvgVerif.Model.Length
+import SvgVerif.Model.Smoothing
 /-! Correspondence driver: one operation per input line, one canonical result per
 output line.  Run as `lake env lean --run Driver.lean < ops.txt`.  The Python
 harness feeds the same operations to the real svgpathtools code and diffs. -/
@@ -290,6 +291,62 @@ def runPathLen (ws : List String) : String :=
     | _, _, _ => "bad-args"
   | _ => "bad-args"
 
+/-! C20 -/
+structure STok where
+  name : String
+  t0 : Option Int
+  t1 : Option Int
+
+def stokCls (a b : STok) : Smoothing.JC :=
+  match a.t1, b.t0 with
+  | some u, some v => if u = v then .smooth else if -u = v then .sharp else .kink
+  | _, _ => .kink
+
+/-- the fake `smoothed_joint` of the loop correspondence: 0, 1 or 2 elbow pieces -/
+def stokJoint (a b : STok) : STok × List STok × STok :=
+  let k := ((a.t1.getD 5) + (b.t0.getD 3)).natAbs % 3
+  let e1 : STok := { name := s!"E1({a.name},{b.name})", t0 := some 7, t1 := some 8 }
+  let e2 : STok := { name := s!"E2({a.name},{b.name})", t0 := some 8, t1 := some 9 }
+  ({ name := s!"A({a.name},{b.name})", t0 := a.t0, t1 := some 7 },
+   (if k = 0 then [] else if k = 1 then [e1] else [e1, e2]),
+   { name := s!"B({a.name},{b.name})", t0 := some (7 + k), t1 := b.t1 })
+
+def parseTan (s : String) : Option (Option Int) :=
+  if s = "x" then some none else (parseInt? s).map some
+
+def runSmooth (ws : List String) : String :=
+  match splitBar ws with
+  | [[closed], segs] =>
+    let toks := segs.zipIdx.map (fun (w, i) =>
+      match w.splitOn "," with
+      | [a, b] => (parseTan a).bind (fun a => (parseTan b).map (fun b => ({ name := s!"s{i}", t0 := a, t1 := b } : STok)))
+      | _ => none)
+    if toks.any Option.isNone then "bad-args" else
+    let toks := toks.filterMap id
+    match Smoothing.smoothedPath stokCls stokJoint (closed = "1") toks with
+    | .unchanged => "unchanged"
+    | .empty => "empty"
+    | .path out sharp => "path " ++ " ".intercalate (out.map (·.name)) ++ " | sharp " ++ " ".intercalate (sharp.map toString)
+  | _ => "bad-args"
+
+/-- `sjoint <isLine0> <isLine1>`: the composition performed by `smoothed_joint` as a Python-evaluable term over
+`ll(a,b)`, `lc(a,b)`, `rev(a)`, `CH`, `CT`, `Line(p,q)`, `st(a)`, `en(a)` -/
+def runSJoint (ws : List String) : String :=
+  match ws with
+  | [l0, l1] =>
+    let o : Smoothing.JointOps (String × Bool) := {
+      isLine := fun a => a.2
+      rev := fun a => (s!"rev({a.1})", a.2)
+      lineLine := fun a b => ((s!"ll({a.1},{b.1})[0]", true), (s!"ll({a.1},{b.1})[1]", false), (s!"ll({a.1},{b.1})[2]", true))
+      lineCurve := fun a b => ((s!"lc({a.1},{b.1})[0]", true), (s!"lc({a.1},{b.1})[1]", false))
+      cropHead := fun _ _ => ("CH", false)
+      cropTail := fun _ _ => ("CT", false)
+      lineToJoint := fun p s => (s!"Line(en({p.1}),en({s.1}))", true)
+      lineFromJoint := fun p s => (s!"Line(en({s.1}),st({p.1}))", true) }
+    let r := Smoothing.smoothedJoint o ("S0", l0 = "1") ("S1", l1 = "1")
+    s!"({r.1.1}, [{", ".intercalate (r.2.1.map (·.1))}], {r.2.2.1})"
+  | _ => "bad-args"
+
 def handle (cmd : String) (args : List String) : String :=
   match cmd with
   | "polyroots01" =>
@@ -443,6 +500,8 @@ def handle (cmd : String) (args : List String) : String :=
     | some [L, s] => showIl (InvArc.invLine L s)
     | _ => "bad-args"
   | "invpath" => runInvPath args
+  | "smooth" => runSmooth args
+  | "sjoint" => runSJoint args
   | "seglen" => runSegLen args
   | "pathlen" => runPathLen args
   | "stall" => runStall false args
